@@ -1,8 +1,8 @@
 """Which suites, theorems and extracted data decide which property."""
-from . import dhcpwire, pool, dhcp, acl, dnsrate, dnscache, dnsroute, dnswire, leasedb, radv, dhcpcfg
+from . import dhcpwire, pool, dhcp, acl, dnsrate, dnscache, dnsroute, dnswire, leasedb, radv, dhcpcfg, hostile
 
 SUITES = {}
-for cls in [dhcpwire.DhcpRoundTrip, dhcpwire.DhcpParse, dhcpwire.Frame, dhcpwire.BroadcastFlag, pool.PoolHistory, dhcp.DhcpHistory, acl.AclSuite, acl.LeaseJson, dnsrate.BucketSuite, dnsrate.RateLimitSuite, dnscache.CacheSuite, dnsroute.RouteSuite, dnswire.DnsEnc, dnswire.DnsDec, dnswire.InReply, leasedb.LeaseDb, radv.RaSuite, dhcpcfg.DhcpCfg]:
+for cls in [dhcpwire.DhcpRoundTrip, dhcpwire.DhcpParse, dhcpwire.Frame, dhcpwire.BroadcastFlag, pool.PoolHistory, dhcp.DhcpHistory, acl.AclSuite, acl.LeaseJson, dnsrate.BucketSuite, dnsrate.RateLimitSuite, dnscache.CacheSuite, dnsroute.RouteSuite, dnswire.DnsEnc, dnswire.DnsDec, dnswire.InReply, leasedb.LeaseDb, radv.RaSuite, dhcpcfg.DhcpCfg, hostile.Icmp6, hostile.Lldp, hostile.DhcpAcc, hostile.ToArr, hostile.EdnsAcc, hostile.DnsSafe, hostile.DhcpSafe]:
     SUITES[cls.name] = cls()
 
 TRUSTED_BASE = [
@@ -165,6 +165,29 @@ PROPS = {
              "non-trivial = at least one non-empty set || " + DHCP_RULE,
         assumptions=["prefix lengths shorter than /20 are covered by the theorems only (enumerating them is 2^12.. addresses per case)"],
         trusted=DHCP_TRUST,
+    ),
+    "C05": dict(
+        suites=[("icmp6", 2500, 60000), ("lldp", 2500, 60000), ("dhcpacc", 2000, 40000), ("toarr", 100, 1000), ("ednsacc", 400, 5000),
+                ("dnssafe", 2500, 60000), ("dhcpsafe", 2000, 40000), ("dhcp", 800, 20000), ("ratelimit", 500, 10000), ("dnsdec", 1000, 20000)],
+        extracted=["pkt.bufGetU8Guard", "pkt.bufPeekU8Guard", "pkt.bufGetBytesGuard", "pkt.bufGetBufferGuard", "pkt.bufSetOffsetGuard",
+                   "pkt.dnsPeekU8Guard", "pkt.dnsGetBytesGuard", "pkt.ednsOptShort", "pkt.icmpMinLen", "pkt.icmpZeroLenRejected",
+                   "pkt.icmpOptDataLen", "pkt.icmpPref64Len", "pkt.icmpMtuLen", "pkt.icmpPrefixLen", "pkt.lldpMgmtLenChecked",
+                   "pkt.lldpFrameChecked", "pkt.lldpFrameDecodeUsed", "pkt.dhcpToArrayChecked", "pkt.dhcpHlenChecked", "pkt.subnetPrefixLenMax",
+                   "pkt.cookieMinLen", "pkt.edeMinLen", "dns.pointerDepthLimit",
+                   "census.pktparser", "census.dnsparse", "census.icmppkt", "census.lldppkt", "census.lldpmod"],
+        rule="byte strings for every network-facing decoder: valid ICMPv6 RS/RA with every ND option, valid LLDP frames with every TLV "
+             "type, valid DHCP packets and DNS messages (all record types, compression), each then mutated structure-aware (truncation "
+             "at any point, any octet - so every length, count, type and pointer field - set to each boundary value, insertions, "
+             "deletions, appended junk), plus pure random strings of length 0..600, pointer loops/chains/self-pointers, frames shorter "
+             "than the Ethernet header; every typed DHCP option decoder on values of length 0..255 incl. classless routes with every "
+             "prefix-length octet 0..255; hardware addresses of length 0..255; EDNS cookie/extended-error payloads of length 0..80; "
+             "run in-process under catch_unwind in a debug build (overflow checks on) with every log line formatted; the outcome "
+             "(decoded value / error kind / panic) is compared with the panic-aware model; DHCP histories interleave hostile and "
+             "valid packets against one lease store; non-trivial = reaches past the fixed header",
+        assumptions=["usize is 64 bits and inputs are shorter than 2^32 octets (cursor arithmetic `offset + n` is modelled unbounded)",
+                     "allocation failure, stack exhaustion and the async runtime are outside the model; the live services over sockets are not exercised in this suite"],
+        trusted=["Vec/slice/iterator methods that cannot panic (to_vec, iter, split_first, get, chunks_exact, from_utf8_lossy) are taken as total",
+                 "the census of raw operations in tools/census.json is the tie between the model's panic sites and the decoder sources"],
     ),
     "C17": dict(
         suites=[("ra", 2500, 60000)],
